@@ -429,7 +429,7 @@ impl<'a> Hist<'a> {
             }
         }
         if r.below(1000) < em.mutate {
-            let m = mutate(r, &self.wallet, &mut tx, &wcoins, p.fee_multiplier);
+            let m = mutate(r, &self.wallet, &mut tx, &wcoins, p.fee_multiplier, em.mutate >= 700);
             label = format!("{}+{}", label, m);
         }
         Some((tx, label))
